@@ -10,6 +10,14 @@ static int have_last;
 static long plain_counter;
 static __thread uint32_t t_ticket;
 static __thread const void* t_ticket_lock;
+// per kernel thread (a fiber never migrates between taking a ticket and unlocking)
+static struct {
+  _Atomic int acquiring;  // took a ticket, not yet inside
+  _Atomic uint32_t ticket;
+  _Atomic int inside;  // between acquisition and unlock
+  char pad[52];
+} thr[VP_MAX_THREADS];
+static _Atomic int spin_active;
 static vp_counter_t *c_lock, *c_try_ok, *c_try_fail, *c_trials, *c_wraps, *c_contended;
 
 static void spin_obs(int point, const void* a, const void* b, int tid) {
@@ -17,6 +25,34 @@ static void spin_obs(int point, const void* a, const void* b, int tid) {
   if (point == FV_SPIN_TICKET) {
     t_ticket_lock = a;
     t_ticket = (uint32_t)(uintptr_t)b;
+    atomic_store(&thr[tid].ticket, (uint32_t)(uintptr_t)b);
+    atomic_store(&thr[tid].acquiring, 1);
+  }
+}
+
+// logical deadlock: the lock is not free, nobody is inside, and the ticket being served belongs to no contender
+static void spin_periodic(void) {
+  static uint32_t last_s;
+  static int streak;
+  if (!atomic_load(&spin_active)) {
+    streak = 0;
+    return;
+  }
+  const uint32_t s = atomic_load(&sp.state.counters.ticket), u = atomic_load(&sp.state.counters.users);
+  int i, ok = (s == u);
+  for (i = 0; i < VP_MAX_THREADS && !ok; ++i) {
+    if (atomic_load(&thr[i].inside)) ok = 1;
+    else if (atomic_load(&thr[i].acquiring) && atomic_load(&thr[i].ticket) == s) ok = 1;
+  }
+  if (ok || s != last_s) {
+    streak = 0;
+    last_s = s;
+    return;
+  }
+  if (++streak >= 6) {
+    vp_violation("C18", "spin:deadlock", "trial %d: now-serving=%u users=%u but no contender holds ticket %u and nobody is inside the lock: every waiter spins forever",
+                 trial, s, u, s);
+    vp_finish();
   }
 }
 
@@ -48,8 +84,10 @@ static void* spin_fiber(void* a) {
       if (vp_self_switches() != sw || vp_thread_hits(FV_CPU_RELAX) != relax)
         vp_violation("C18", "spin:trylock-waited", "trial %d: fiber %d spun or was switched inside fiber_spinlock_trylock", trial, s->id);
       if (ok == FIBER_SUCCESS) {
+        atomic_store(&thr[vp_tid()].inside, 1);
         vp_add(c_try_ok, 1);
         vp_payload_spin_section(s, 1, 0);
+        atomic_store(&thr[vp_tid()].inside, 0);
         fiber_spinlock_unlock(&sp);
       } else {
         vp_add(c_try_fail, 1);
@@ -58,11 +96,14 @@ static void* spin_fiber(void* a) {
       const long relax = vp_thread_hits(FV_CPU_RELAX);
       atomic_store(&s->where, "C18 fiber_spinlock_lock");
       fiber_spinlock_lock(&sp);
+      atomic_store(&thr[vp_tid()].inside, 1);
+      atomic_store(&thr[vp_tid()].acquiring, 0);
       atomic_store(&s->where, (const char*)0);
       if (vp_thread_hits(FV_CPU_RELAX) != relax) vp_add(c_contended, 1);
       const uint32_t mine = t_ticket_lock == &sp ? t_ticket : atomic_load(&sp.state.counters.ticket);
       vp_add(c_lock, 1);
       vp_payload_spin_section(s, 0, mine);
+      atomic_store(&thr[vp_tid()].inside, 0);
       fiber_spinlock_unlock(&sp);
     }
     vp_progress();
@@ -83,6 +124,7 @@ void* sy_spin_root(void* x) {
   c_wraps = vp_counter("spin_ticket_wraparounds");
   c_contended = vp_counter("spin_lock_calls_that_spun");
   vp_add_observer(spin_obs);
+  vp_set_periodic(spin_periodic);
   uint64_t rng = vp_mix(vp_cfg.seed, 1818);
   for (trial = 0; trial < trials; ++trial) {
     const int F = 2 + (int)(vp_rand(&rng) % 30);
@@ -97,8 +139,10 @@ void* sy_spin_root(void* x) {
     fb_slots_reset();
     fb_slot_t* sl[64];
     int i;
+    atomic_store(&spin_active, 1);
     for (i = 0; i < F; ++i) sl[i] = fb_spawn(spin_fiber, NULL);
     fb_join_all(sl, F);
+    atomic_store(&spin_active, 0);
     const long sections = plain_counter;
     if ((uint32_t)(start + (uint32_t)sections) != atomic_load(&sp.state.counters.ticket) || atomic_load(&sp.state.counters.ticket) != atomic_load(&sp.state.counters.users))
       vp_violation("C18", "spin:counters-at-end", "trial %d: %ld sections from ticket %u but ticket=%u users=%u", trial, sections, start,
